@@ -1,4 +1,4 @@
 #!/bin/sh
 # usage: tools/coqbuild.sh <targets relative to coq/, e.g. Properties/C13.vo>   (takes the build lock)
 mkdir -p /verif/build
-exec flock /verif/build/.buildlock sh -c 'cd /verif/coq && sh ./mkproject.sh && timeout 3000 make -k -j16 "$@" 2>&1 | grep -v "^COQDEP\|^COQC\|cannot-define-projection" | tail -60' sh "$@"
+exec flock /verif/build/.buildlock sh -c 'cd /verif/coq && sh ./mkproject.sh && timeout 600 make -k -j16 "$@" 2>&1 | grep -v "^COQDEP\|^COQC\|cannot-define-projection" | tail -60' sh "$@"
